@@ -67,23 +67,24 @@ type c19Spec struct {
 }
 
 type c19Mach struct {
-	spec      c19Spec
-	g         c19Geom
-	mdl       *c19Model
-	dev       Device
-	drv       string // vga, fb8, fb16, fb24: the driver code path
-	host      []byte // leading guard + window + trailing guard
-	lead      int
-	fb        []byte // the window = the console's whole framebuffer
-	guardRef  []byte
-	before    []byte
-	placement string
-	relaid    bool   // the console had an earlier layout (another font) before the final one
-	nilLogo   bool   // SetLogo(nil) was called after the layout was complete
-	viaInit   bool   // brought up through the real DriverInit (map seam) instead of assigning the framebuffer
-	mapSizes  []uint64
-	fbLen     int // length of the framebuffer slice DriverInit built
-	scr       uint64 // scramble state
+	spec       c19Spec
+	g          c19Geom
+	mdl        *c19Model
+	dev        Device
+	drv        string // vga, fb8, fb16, fb24: the driver code path
+	host       []byte // leading guard + window + trailing guard
+	lead       int
+	fb         []byte // the window = the console's whole framebuffer
+	guardRef   []byte
+	before     []byte
+	placement  string
+	relaid     bool // the console had an earlier layout (another font) before the final one
+	prepainted bool // the earlier layout was painted on with colour indices 240-255 before the logo arrived
+	nilLogo    bool // SetLogo(nil) was called after the layout was complete
+	viaInit    bool // brought up through the real DriverInit (map seam) instead of assigning the framebuffer
+	mapSizes   []uint64
+	fbLen      int    // length of the framebuffer slice DriverInit built
+	scr        uint64 // scramble state
 
 	logoChecked bool
 	logoMM      c19Mismatch
@@ -282,6 +283,16 @@ func c19Build(spec c19Spec, r *vlib.Rand) (m *c19Mach, setupPanic interface{}, s
 				gh0 := r.Range(1, int(pmin64(g.height, 16)))
 				cons.SetFont(&font.Font{Name: "c19earlier", GlyphWidth: 8, GlyphHeight: uint32(gh0), BytesPerRow: 1, Data: r.Bytes(256 * gh0)})
 				m.relaid = true
+				if g.width >= 8 {
+					// ... and was painted on in that layout with the sixteen highest colour indices - the ones a
+					// logo palette is installed at later (whatever was derived from a palette entry then must not
+					// outlive the entry)
+					for idx := 240; idx < 256; idx++ {
+						cons.Fill(1, 1, 1, 1, uint8(idx), uint8(idx))
+						cons.Write(byte(idx), uint8(idx), uint8(255-idx+240), 1, 1)
+					}
+					m.prepainted = true
+				}
 			}
 			if spec.logoH > 0 {
 				np := r.Range(1, 16)
@@ -740,6 +751,9 @@ func TestVerifC19(t *testing.T) {
 		}
 		if m.nilLogo {
 			count("consoles_given_a_nil_logo_after_layout", 1)
+		}
+		if m.prepainted {
+			count("consoles_painted_with_colours_240_255_before_the_logo", 1)
 		}
 		if m.viaInit {
 			count("consoles_brought_up_through_driverinit", 1)
